@@ -242,7 +242,10 @@ pub(crate) mod inner {
             T: Default,
         {
             let mutex = self.0.get_or_init(Default::default);
-            let mut guard = mutex.write().unwrap();
+            // A panic while building a formatter (the closures below `expect` them) poisons the lock,
+            // the cache itself stays consistent (nothing was inserted), so keep using it:
+            // one failing formatter must not make every later formatting call panic.
+            let mut guard = mutex.write().unwrap_or_else(|err| err.into_inner());
             f(&mut guard)
         }
     }
